@@ -40,8 +40,10 @@ type vrfDriver struct {
 	mood  string
 	// plan is the height at which a node submits its proof in this epoch (absent = skips).
 	plan map[*SimNode]int64
-	// sent are the proofs accepted in this epoch (by node ID).
-	sent map[signature.PublicKey]*vrfSent
+	// sent are the proofs accepted in this epoch (by node ID); tried the nodes that, having rotated their
+	// VRF key after proving, already submitted the proof by the new key.
+	sent  map[signature.PublicKey]*vrfSent
+	tried map[signature.PublicKey]bool
 	// Moods counts the epochs by mood.
 	Moods map[string]int
 	// prevAlpha is the alpha of the previous epoch.
@@ -109,7 +111,7 @@ func (d *vrfDriver) txs(height int64) []*GenTx {
 	if !d.have || st.Epoch != d.epoch {
 		d.have, d.epoch = true, st.Epoch
 		d.prevAlpha, d.curAlpha = d.curAlpha, append([]byte(nil), st.Alpha...)
-		d.sent = map[signature.PublicKey]*vrfSent{}
+		d.sent, d.tried = map[signature.PublicKey]*vrfSent{}, map[signature.PublicKey]bool{}
 		d.plan = map[*SimNode]int64{}
 		switch x := rng.IntN(12); {
 		case x < 4:
@@ -170,6 +172,25 @@ func (d *vrfDriver) txs(height int64) []*GenTx {
 			if transition {
 				gt.Intent = "post:vrf-at-epoch-transition"
 			}
+			emit(gt)
+		}
+	}
+
+	// A node that changed its VRF key after proving in this epoch submits the (valid) proof by its new
+	// key: another output than the stored one, which must be refused.
+	if open && !transition {
+		for _, n := range g.h.Sc.AllNodes() {
+			s := d.sent[n.Keys.ID.PK]
+			cur := v.Nodes[n.Keys.ID.PK]
+			if s == nil || cur == nil || d.tried[n.Keys.ID.PK] || s.vrfPK.Equal(n.Keys.VRF.PK) || !cur.VRF.ID.Equal(n.Keys.VRF.PK) {
+				continue
+			}
+			if _, p := g.pending[n.Keys.ID.Addr]; p {
+				continue // re-registers in this block
+			}
+			d.tried[n.Keys.ID.PK] = true
+			gt := d.proveTx(n, n.Keys.ID, st.Epoch, vrfProve(n.Keys.VRF, st.Alpha), d.sureFee())
+			gt.Intent = "vrf:different-proof"
 			emit(gt)
 		}
 	}
